@@ -194,4 +194,43 @@ theorem rdWave_fresh (l : Int) (c : Nat) : rdWave l c (fun _ => T.tmax) = Wv.emp
   | zero => rfl
   | succ n => simp [List.range_succ_eq_map, scan, T.isTerm, Wv.empty]
 
+/-! ### moving all times of a memory rigidly (`t ↦ k·t + s`, sentinels fixed) -/
+
+theorem T.aff_isTerm (k s : Int) (a : T) : (a.aff k s).isTerm = a.isTerm := by cases a <;> rfl
+theorem T.aff_isFin (k s : Int) (a : T) : (a.aff k s).isFin = a.isFin := by cases a <;> rfl
+
+theorem scan_aff (k s : Int) (cs : List T) : scan (cs.map (T.aff k s)) = (scan cs).aff k s := by
+  induction cs with
+  | nil => rfl
+  | cons x r ih =>
+    simp only [List.map_cons, scan, T.aff_isTerm]
+    split
+    · rename_i h
+      cases x <;> simp_all [Wv.aff, T.aff, T.isTerm]
+    · rw [ih]; rfl
+
+/-- reading a rigidly moved memory gives the rigidly moved waveform -/
+theorem rdWave_aff (k s : Int) (l : Int) (c : Nat) (m : Int → T) :
+    rdWave l c (fun a => (m a).aff k s) = (rdWave l c m).aff k s := by
+  unfold rdWave
+  rw [← scan_aff]
+  congr 1
+  simp [cells]
+
+theorem Wv.aff_ok (k s : Int) {w : Wv} (h : w.ok) : (w.aff k s).ok := by
+  obtain ⟨⟨h1, h2⟩, h3⟩ := h
+  refine ⟨⟨?_, ?_⟩, ?_⟩
+  · intro e he
+    simp only [Wv.aff, ← List.map_tail, List.mem_map] at he
+    obtain ⟨x, hx, rfl⟩ := he
+    rw [T.aff_isFin]; exact h1 x hx
+  · intro e he
+    simp only [Wv.aff, List.mem_map] at he
+    obtain ⟨x, hx, rfl⟩ := he
+    rcases h2 x hx with rfl | hf
+    · exact Or.inl rfl
+    · exact Or.inr (by rw [T.aff_isFin]; exact hf)
+  · show (w.term.aff k s).isTerm = true
+    rw [T.aff_isTerm]; exact h3
+
 end KV.Wave
